@@ -16,21 +16,21 @@ variable {V : Type}
 
 /-- "Element-wise … operators equal mapping the Python operator over the items": when the operator succeeds on every
     item and every result fits the result dtype, the new Array's data is the results' encodings back to back. -/
-theorem op_map (c cr : Codec V) (hu : c.mult = 1) (hL : 0 < c.L) (hur : cr.mult = 1) (hwfr : cr.WF)
+theorem op_map (c cr : Codec V) (hL : 0 < c.w) (hwfr : cr.WF)
     (f : V → Except Err V) (d : Bits) (rs : List V) (bs : List Bits)
     (hf : (items c d).mapM f = .ok rs) (henc : rs.mapM cr.enc = .ok bs) :
     applyOp c cr f d = .ok bs.flatten := by
-  obtain ⟨bl, t, hbl, ht, rfl, hch, htr, hlen, hit⟩ := blocks_view c hu hL d
+  obtain ⟨bl, t, hbl, ht, rfl, hch, htr, hlen, hit⟩ := blocks_view c hL d
   rw [hit] at hf
-  have hfa := build_forall₂ cr hur hwfr f c.dec bl rs bs hf henc
+  have hfa := build_forall₂ cr hwfr f c.dec bl rs bs hf henc
   unfold applyOp
   rw [hlen, List.range_eq_range']
-  have h := opLoop_ok c cr hu f bl t hbl bl.length 0 (by omega) bs (by simpa using hfa) [] 0
+  have h := opLoop_ok c cr f bl t hbl bl.length 0 (by omega) bs (by simpa using hfa) [] 0
   rw [h]
   simp
 
 /-- … so its items are the mapped items and it has no trailing bits. -/
-theorem op_map_items (c cr : Codec V) (hu : c.mult = 1) (hL : 0 < c.L) (hur : cr.mult = 1) (hLr : 0 < cr.L) (hwfr : cr.WF)
+theorem op_map_items (c cr : Codec V) (hL : 0 < c.w) (hLr : 0 < cr.w) (hwfr : cr.WF)
     (f : V → Except Err V) (g : V → V) (d : Bits)
     (hf : ∀ v ∈ items c d, f v = .ok (g v)) (hfit : ∀ v ∈ items c d, fits cr (g v) = true) :
     ∃ r, applyOp c cr f d = .ok r ∧ items cr r = (items c d).map g ∧ trailing cr.w r = [] := by
@@ -40,25 +40,25 @@ theorem op_map_items (c cr : Codec V) (hu : c.mult = 1) (hL : 0 < c.L) (hur : cr
     intro x hx
     obtain ⟨v, hv, rfl⟩ := List.mem_map.mp hx
     exact hfit v hv
-  obtain ⟨bl, _, hbl, hdec, hm, _⟩ := encs_of_fits cr hur hwfr _ hall
-  refine ⟨bl.flatten, op_map c cr hu hL hur hwfr f d _ bl hmap hm, ?_, ?_⟩
-  · have hv := view_of_blocks cr hur hLr bl [] hbl hLr
+  obtain ⟨bl, _, hbl, hdec, hm, _⟩ := encs_of_fits cr hwfr _ hall
+  refine ⟨bl.flatten, op_map c cr hL hur hwfr f d _ bl hmap hm, ?_, ?_⟩
+  · have hv := view_of_blocks cr hLr bl [] hbl hLr
     rw [List.append_nil] at hv
     rw [hv.1, hdec]
-  · have hv := view_of_blocks cr hur hLr bl [] hbl hLr
+  · have hv := view_of_blocks cr hLr bl [] hbl hLr
     rw [List.append_nil] at hv
     exact hv.2.1
 
 /-- "a result that does not fit raises" (also: the operator itself raising on an item, e.g. division by zero). -/
-theorem op_raises (c cr : Codec V) (hu : c.mult = 1) (hL : 0 < c.L) (f : V → Except Err V) (d : Bits)
+theorem op_raises (c cr : Codec V) (hL : 0 < c.w) (f : V → Except Err V) (d : Bits)
     (v : V) (hv : v ∈ items c d) (e : Err) (hfail : buildResult cr (f v) = .error e) :
     ∃ e', applyOp c cr f d = .error e' := by
-  obtain ⟨bl, t, hbl, ht, rfl, hch, htr, hlen, hit⟩ := blocks_view c hu hL d
+  obtain ⟨bl, t, hbl, ht, rfl, hch, htr, hlen, hit⟩ := blocks_view c hL d
   rw [hit] at hv
   obtain ⟨b, hb, rfl⟩ := List.mem_map.mp hv
   unfold applyOp
   rw [hlen, List.range_eq_range']
-  have h := opLoop_fails c cr hu f bl t hbl bl.length 0 (by omega) [] 0
+  have h := opLoop_fails c cr f bl t hbl bl.length 0 (by omega) [] 0
   revert h
   cases opLoop c cr f (bl.flatten ++ t) (List.range' 0 bl.length) [] 0 with
   | error e' => intro _; exact ⟨e', rfl⟩
@@ -98,7 +98,7 @@ theorem op_inplace_fails_iff (c : Codec V) (f : V → Except Err V) (d : Bits) :
 /-- `k - A` = mapping `x ↦ k - x` (`g`) over the items when every result fits — outside the region `rsub_negation`
     (some item whose negation does not fit the dtype).  `hcomp`: `(-x) + k = k - x` in Python.
     Full statement (no `hreg`) fails on the pinned tree: see `rsub_negation_witness`. -/
-theorem rsub_map_partial (c : Codec V) (hu : c.mult = 1) (hL : 0 < c.L) (hwf : c.WF)
+theorem rsub_map_partial (c : Codec V) (hL : 0 < c.w) (hwf : c.WF)
     (fneg fadd : V → Except Err V) (g : V → V) (d : Bits)
     (hreg : rsub_negation c fneg d = false)
     (hcomp : ∀ v ∈ items c d, ∀ n, fneg v = .ok n → fadd n = .ok (g v))
@@ -122,7 +122,7 @@ theorem rsub_map_partial (c : Codec V) (hu : c.mult = 1) (hL : 0 < c.L) (hwf : c
       cases hce : createElement c n with
       | error e => simp [hce] at this
       | ok b => exact (fits_iff c n).mpr ⟨b, (createElement_ok_inv c n b hce).1⟩
-  obtain ⟨r1, hr1, hi1, ht1⟩ := op_map_items c c hu hL hu hL hwf fneg g1 d
+  obtain ⟨r1, hr1, hi1, ht1⟩ := op_map_items c c hL hL hwf fneg g1 d
     (fun v hv => (hneg v hv).1) (fun v hv => (hneg v hv).2)
   have hadd : ∀ v' ∈ items c r1, fadd v' = .ok (g2 v') ∧ fits c (g2 v') = true := by
     intro v' hv'
@@ -132,7 +132,7 @@ theorem rsub_map_partial (c : Codec V) (hu : c.mult = 1) (hL : 0 < c.L) (hwf : c
     have hg : g2 (g1 v) = g v := by simp only [g2, h]
     rw [hg]
     exact ⟨h, hfit v hv⟩
-  obtain ⟨r2, hr2, hi2, ht2⟩ := op_map_items c c hu hL hu hL hwf fadd g2 r1
+  obtain ⟨r2, hr2, hi2, ht2⟩ := op_map_items c c hL hL hwf fadd g2 r1
     (fun v hv => (hadd v hv).1) (fun v hv => (hadd v hv).2)
   refine ⟨r2, ?_, ?_, ht2⟩
   · unfold rsub
@@ -155,17 +155,17 @@ theorem rsub_negation_witness :
 /-! ### bit-wise operators with a Bits value -/
 
 /-- In place: every item's bits are combined with the value, the trailing bits stay. -/
-theorem bitwise_inplace_map (c : Codec V) (hu : c.mult = 1) (hL : 0 < c.L) (op : Bool → Bool → Bool) (d v : Bits)
-    (hv : v.length = c.L) :
+theorem bitwise_inplace_map (c : Codec V) (hL : 0 < c.w) (op : Bool → Bool → Bool) (d v : Bits)
+    (hv : v.length = c.w) :
     (bitwiseInplace c op d v).res = .ok () ∧
     chunks c.w (bitwiseInplace c op d v).data = (chunks c.w d).map (fun b => List.zipWith op b v) ∧
     trailing c.w (bitwiseInplace c op d v).data = trailing c.w d := by
-  obtain ⟨bs, t, hbs, ht, rfl, hch, htr, hlen, hit⟩ := blocks_view c hu hL d
-  rw [bitwiseInplace_blocks c hu hL op v hv bs t hbs ht, hch, htr]
-  have hv' := view_of_blocks c hu hL _ t (map_blocks_length c.L op v hv bs hbs) ht
+  obtain ⟨bs, t, hbs, ht, rfl, hch, htr, hlen, hit⟩ := blocks_view c hL d
+  rw [bitwiseInplace_blocks c hL op v hv bs t hbs ht, hch, htr]
+  have hv' := view_of_blocks c hL _ t (map_blocks_length c.w op v hv bs hbs) ht
   exact ⟨rfl, hv'.2.2.1, hv'.2.1⟩
 
-theorem bitwise_wrong_length (c : Codec V) (op : Bool → Bool → Bool) (d v : Bits) (hv : v.length ≠ c.L) :
+theorem bitwise_wrong_length (c : Codec V) (op : Bool → Bool → Bool) (d v : Bits) (hv : v.length ≠ c.w) :
     (bitwiseInplace c op d v).res = .error .value ∧ (bitwiseInplace c op d v).data = d ∧
     ∃ e, bitwise c op d v = .error e := by
   have h1 : bitwiseInplace c op d v = ⟨d, .error .value⟩ := by
@@ -182,41 +182,41 @@ theorem bitwise_wrong_length (c : Codec V) (op : Bool → Bool → Bool) (d v : 
     exact ⟨_, rfl⟩
 
 /-- Not in place: a new Array (copy of the items, no trailing bits) with every item combined. -/
-theorem bitwise_map (c : Codec V) (hu : c.mult = 1) (hL : 0 < c.L) (op : Bool → Bool → Bool) (d v : Bits)
-    (hv : v.length = c.L) :
+theorem bitwise_map (c : Codec V) (hL : 0 < c.w) (op : Bool → Bool → Bool) (d v : Bits)
+    (hv : v.length = c.w) :
     bitwise c op d v = .ok ((chunks c.w d).map fun b => List.zipWith op b v).flatten := by
-  obtain ⟨bs, t, hbs, ht, rfl, hch, htr, hlen, hit⟩ := blocks_view c hu hL d
+  obtain ⟨bs, t, hbs, ht, rfl, hch, htr, hlen, hit⟩ := blocks_view c hL d
   unfold bitwise
-  rw [getSlice_all_blocks c hu hL bs t hbs ht, hch]
+  rw [getSlice_all_blocks c hL bs t hbs ht, hch]
   simp only
-  have h := bitwiseInplace_blocks c hu hL op v hv bs [] hbs hL
+  have h := bitwiseInplace_blocks c hL op v hv bs [] hbs hL
   rw [List.append_nil, List.append_nil] at h
   rw [h]
 
 /-! ### Array ⊕ Array -/
 
-theorem between_map (c1 c2 cr : Codec V) (hu1 : c1.mult = 1) (hL1 : 0 < c1.L) (hu2 : c2.mult = 1) (hL2 : 0 < c2.L)
-    (hur : cr.mult = 1) (hwfr : cr.WF) (f : V → V → Except Err V) (d1 d2 : Bits) (rs : List V) (bs : List Bits)
+theorem between_map (c1 c2 cr : Codec V) (hL1 : 0 < c1.w) (hL2 : 0 < c2.w)
+    (hwfr : cr.WF) (f : V → V → Except Err V) (d1 d2 : Bits) (rs : List V) (bs : List Bits)
     (hlen : (items c1 d1).length = (items c2 d2).length)
     (hf : ((items c1 d1).zip (items c2 d2)).mapM (fun p => f p.1 p.2) = .ok rs) (henc : rs.mapM cr.enc = .ok bs) :
     betweenArrays c1 c2 cr f d1 d2 = .ok bs.flatten := by
-  obtain ⟨bs1, t1, hbs1, ht1, rfl, _, _, hlen1, hit1⟩ := blocks_view c1 hu1 hL1 d1
-  obtain ⟨bs2, t2, hbs2, ht2, rfl, _, _, hlen2, hit2⟩ := blocks_view c2 hu2 hL2 d2
+  obtain ⟨bs1, t1, hbs1, ht1, rfl, _, _, hlen1, hit1⟩ := blocks_view c1 hL1 d1
+  obtain ⟨bs2, t2, hbs2, ht2, rfl, _, _, hlen2, hit2⟩ := blocks_view c2 hL2 d2
   rw [hit1, hit2] at hf hlen
   simp only [List.length_map] at hlen
   have hz : (bs1.map c1.dec).zip (bs2.map c2.dec) = (bs1.zip bs2).map (fun p => (c1.dec p.1, c2.dec p.2)) := by
     rw [List.zip_map]; rfl
   rw [hz] at hf
-  have hfa := build_forall₂ cr hur hwfr (fun (q : V × V) => f q.1 q.2) (fun (p : Bits × Bits) => (c1.dec p.1, c2.dec p.2))
+  have hfa := build_forall₂ cr hwfr (fun (q : V × V) => f q.1 q.2) (fun (p : Bits × Bits) => (c1.dec p.1, c2.dec p.2))
     (bs1.zip bs2) rs bs hf henc
   unfold betweenArrays
   rw [hlen1, hlen2, if_neg (not_not.mpr hlen), List.range_eq_range']
-  have h := opLoop2_ok c1 c2 cr hu1 hu2 f bs1 t1 hbs1 bs2 t2 hbs2 bs1.length 0 (by omega) (by omega) bs
+  have h := opLoop2_ok c1 c2 cr hu2 f bs1 t1 hbs1 bs2 t2 hbs2 bs1.length 0 (by omega) (by omega) bs
     (by rw [List.drop_zero, List.drop_zero, List.take_length, hlen, List.take_length]; exact hfa) [] 0
   rw [h]
   simp
 
-theorem between_length_mismatch (c1 c2 cr : Codec V) (hu1 : c1.mult = 1) (hu2 : c2.mult = 1)
+theorem between_length_mismatch (c1 c2 cr : Codec V) (hu2 : c2.mult = 1)
     (f : V → V → Except Err V) (d1 d2 : Bits) (hlen : (items c1 d1).length ≠ (items c2 d2).length) :
     betweenArrays c1 c2 cr f d1 d2 = .error .value := by
   unfold betweenArrays
@@ -234,7 +234,7 @@ theorem eqNe_arrays_partial (c cb c2 : Codec V) (f : V → V → Except Err V) (
     simp only [Bool.or_eq_false_iff, bne_eq_false_iff_eq] at hreg
     exact hreg
   unfold eqNeArrays extendArr
-  have h0 : ¬ (([] : Bits).length % c.L ≠ 0) := by simp
+  have h0 : ¬ (([] : Bits).length % c.w ≠ 0) := by simp
   have h1 : ¬ (c.name ≠ c2.name ∨ c.L ≠ c2.L) := by
     intro h; rcases h with h | h
     · exact h hn.1
